@@ -51,3 +51,8 @@ W.ground_sorts = (St.sort(), Key.sort())
 W.special = {}
 _P = 'pyformlang/finite_automaton/epsilon_nfa.py'
 TARGETS = {'NamerC._get': (_P, 'StateNamer._get')}
+
+SMOKE = [
+    ('NamerC._get', _P, "        while state in self._used:\n            state = State(str(state.value) + \"'\")\n", "", 'break'),
+    ('NamerC._get', _P, "        self._used.add(state)\n", "", 'break'),
+]
